@@ -20,12 +20,14 @@ def carray(nested):
     return a[..., 0] + 1j * a[..., 1]
 
 
-def core_arrays(cores):
+def core_arrays(cores, fortran=False):
     out = []
     for c in cores:
         a = carray(c)
         if np.all(a.imag == 0):
             a = np.ascontiguousarray(a.real)
+        if fortran:
+            a = np.asfortranarray(a)       # same values, column-major storage (e.g. arrays loaded from MATLAB files)
         out.append(a)
     return out
 
@@ -489,7 +491,7 @@ def _ranks_arg(ev):
     return rk
 
 
-def replay(tt_mod, hist, on_violation):
+def replay(tt_mod, hist, on_violation, fortran=False):
     """Replay one history.  on_violation(event_index, category, message) is called for the first
     mismatch; returns the number of real API calls performed."""
     TT = tt_mod.TT
@@ -499,7 +501,7 @@ def replay(tt_mod, hist, on_violation):
     for idx, ev in enumerate(hist):
         op = ev['op']
         if op == 'New':
-            objs.append(TT(core_arrays(ev['cores'])))
+            objs.append(TT(core_arrays(ev['cores'], fortran=fortran)))
             exps.append(ev['new'][0])
             continue
         touched = ev.get('touched')
